@@ -34,6 +34,9 @@ def cases(seed, tier):
                     'size': int(rng.choice([1, 5, 64])), 'seed': int(rng.integers(1 << 31))})
         out.append({'mode': 'scalar', 'solver': 'chandrupatla', 'size': 1, 'seed': int(rng.integers(1 << 31))})
     for r in range(12 if tier == 'quick' else 150):
+        out.append({'mode': 'overlapping', 'solver': 'bisect' if r % 2 else 'chandrupatla', 'size': int(rng.choice([2, 5, 60])),
+                    'seed': int(rng.integers(1 << 31))})
+    for r in range(12 if tier == 'quick' else 150):
         out.append({'mode': 'int-bracket', 'solver': 'bisect' if r % 2 else 'chandrupatla', 'size': int(rng.choice([1, 3, 40])),
                     'seed': int(rng.integers(1 << 31))})
     for r in range(6 if tier == 'quick' else 60):
@@ -211,6 +214,24 @@ def run_case(spec, ctx):
         return
     if spec['mode'] == 'kde':
         return _kde(spec, ctx, rng, where)
+    if spec['mode'] == 'overlapping':
+        # xmin = grid[:-1], xmax = grid[1:]: the two bracket arrays share memory
+        n = max(2, size)
+        grid = np.sort(rng.uniform(-5, 5, n + 1))
+        grid += np.arange(n + 1) * 1e-3
+        lanes = Lanes(rng, n, True)
+        lanes.xmin, lanes.xmax = grid[:-1].copy(), grid[1:].copy()
+        lanes.root = lanes.xmin + rng.uniform(0.05, 0.95, n) * (lanes.xmax - lanes.xmin)
+        lanes.reset()
+        g0 = grid.copy()
+        ok, x = ctx.call(getattr(optimize, solver), lanes, grid[:-1], grid[1:])
+        if not ok:
+            ctx.violation('root.call', 'C18:%s-overlapping-views-%s' % (solver, exc_mech(x)), dict(exc_detail(x), **where))
+            return
+        judge(ctx, solver, lanes, np.asarray(x, dtype=float), where)
+        ctx.check(np.array_equal(grid, g0), 'root.bracket-untouched', 'C18:%s-modifies-bracket-arrays' % solver, where)
+        ctx.nontriv('overlap|%s|%d' % (solver, spec['seed']))
+        return
     if spec['mode'] == 'int-bracket':
         # brackets whose ends are whole numbers, passed as integer arrays (or lists of ints)
         lanes = Lanes(rng, size, True)
